@@ -74,8 +74,9 @@ fn scenario() -> Scenario {
             extra_res: None,
             ta_alt: vec![],
             sia_under_parent_mft: false,
+            rrdp: None,
         }],
-        steps: vec![Step { publish: vec![0], fail_modules: vec![], offline: false, stale: None, foreign_tal_key: vec![], ta_serve: vec![] }],
+        steps: vec![Step { publish: vec![0], fail_modules: vec![], offline: false, stale: None, foreign_tal_key: vec![], ta_serve: vec![], fail_rrdp: vec![] }],
     }
 }
 
